@@ -65,6 +65,8 @@ def gen_mech(r, ns, nrx=None, allow_param=True, max_react=3):
             if reactants and r.chance(0.2):
                 cand = [x for x in reactants if x < PARAM0]
                 pid = r.pick(cand) if cand else r.below(ns)   # species on both sides
+            elif allow_param and r.chance(0.08):
+                pid = PARAM0 + r.below(2)                      # a parameterized (non-state) product
             else:
                 pid = r.below(ns)
             y = r.pick([1.0, 1.0, 0.5, 2.0, 0.25, 0.125 * r.rng(1, 15), r.unit() * 2])
